@@ -151,6 +151,11 @@ class C01(L1Prop):
             for i in range(ni):
                 ops += [f"inst {i}"] + [f"walk {c}" for c in range(1, nc + 1)]
             out.append(Case(f"c01-inst-{k}", ops, {"only": "sqlite"}))
+        # the write lock is held by another connection for LONGER than the backend waits for it, while several
+        # uploads for one client arrive: they may be refused (after waiting), never accepted twice on one parent
+        for k in range(sizes(tier, 1, 4)):
+            ops = ["raw", "ensure 1", "av 1 nil b:1", "av 1 latest:1 b:2", f"lockfor {5600 + 300 * k}", f"race 1 {2 + k % 2} 3"]
+            out.append(Case(f"c01-lockrace-{k}", ops, {"only": "sqlite", "race": True, "raw": False}))
         # the history does not start with this build: a data directory written by the pinned release
         def tail(name, c, nacc, snap, o):
             return [f"walk {c}", f"walk {o}", f"av {c} latest:{c} b:1,1", f"av {o} latest:{o} b:1,2", f"av {c} anc:{c}:1 b:1,3",
@@ -172,6 +177,16 @@ class C01(L1Prop):
         fails = []
         acc = {}
         i = 0
+        for (o, ri, rm) in trace:
+            if o.startswith("race "):
+                kv = dict(x.split("=", 1) for x in ri.split()[1:])
+                if kv["parents_twice"] != "0":
+                    fails.append(f"{kv['parents_twice']} parents were given two accepted children by uploads arriving while the write lock was held elsewhere")
+                if kv["orphans"] != "0" or kv["unacknowledged_on_chain"] != "0" or kv["walk"] != "ok":
+                    fails.append(f"after those uploads the chain cannot be walked through the acknowledged versions: {kv['orphans']} accepted versions are not on it, "
+                                 f"{kv['unacknowledged_on_chain']} versions on it were never acknowledged, walk {kv['walk']}")
+        if case.meta.get("race"):
+            return fails
         while i < len(trace):
             o, ri, rm = trace[i]
             op = Op(o)
@@ -310,6 +325,9 @@ def http_as_lib(trace):
                 else:
                     rr = f"error-{r.status}"
                 out.append((f"av {h.cid} {h.seg} {h.fresh} {h.now} {h.body()}", rr, rr))
+            elif h.route == "as" and h.valid():
+                rr = "snapack" if r.status == 200 else ("noclient" if r.status == 404 else f"error-{r.status}")
+                out.append((f"as {h.cid} {h.seg} {h.now} {h.body()}", rr, rr))
             continue
         out.append((o, ri, rm))
     return out
@@ -338,6 +356,14 @@ class C02(L1Prop):
                     ops.append(f"ensure {c}")
                 ops += ["dumpall", f"av {c} {cls.format(c=c, o=o)} {payload(rr)}", "dumpall"]
                 out.append(Case(f"c02-{k}-{ci}", ops, {"target": len(ops) - 2}))
+        # an EMPTY history segment through the library entry point (the HTTP handler refuses it, other
+        # embedders need not): it is a version like any other
+        for k in range(sizes(tier, 8, 40)):
+            n = k % 4
+            ops = ["ensure 1"] + [f"av 1 {'nil' if i == 0 else 'latest:1'} b:1,{i}" for i in range(n)]
+            for cls in (["latest:1", "latest:1", "anc:1:1", "nil"] if n else ["nil", "latest:1", "fresh"]):
+                ops += ["dumpall", f"av 1 {cls} e", "dumpall"]
+            out.append(Case(f"c02-empty-{k}", ops, {"target": 0}))
         # the HTTP entry point: every class of parent, plus the retransmission of an earlier accepted
         # request (same stale parent, byte-identical payload) which must be a conflict like any other
         nh = sizes(tier, 30, 150)
@@ -488,6 +514,16 @@ class C07(L1Prop):
             ops += [f"http GET gcv hyph={'base:1' if i == 0 else 'ver:1:%d' % (i - 1)} hyph=1 absent e" for i in range(n)]
             ops += ["http POST av hyph=latest:1 hyph=1 history b:8,8", "http GET gcv hyph=nil hyph=1 absent e"]
             out.append(Case(f"c07-allow-{k}", ops, {"http": True}, mode="http"))
+        # an upload whose COMMIT fails (everything before it was executed), then the retry on the same parent
+        # is accepted: later reads of that parent return the ACCEPTED version, in this process and after reopen
+        for k in range(sizes(tier, 6, 30)):
+            n = rng.randint(1, 4)
+            ops = ["ensure 1"] + [f"av 1 {'nil' if i == 0 else 'latest:1'} b:1,{i}" for i in range(n)]
+            for j in range(rng.randint(1, 3)):
+                ops += [f"fault {rng.choice(['3:before', '3:before', '2:after'])}", f"av 1 latest:1 b:66,{j}", "gcv 1 latest:1",
+                        f"av 1 latest:1 b:2,{j}", "gcv 1 anc:1:1", "reread 1"]
+            ops += ["reopen", "reread 1"]
+            out.append(Case(f"c07-commitfault-{k}", ops, {"only": "sqlite", "faults": True}))
         # the real executable, killed with SIGKILL (every other time while another connection keeps the
         # write-ahead log from being checkpointed) and restarted on its directory: every accepted version is
         # still the child of its parent, before and after further uploads
@@ -917,6 +953,29 @@ class C09(L1Prop):
                 ops = [f"cfg {rng.choice([14, 1, 2])} {rng.choice([1, 2, 3])}"] + ops
             out.append(Case(f"c09-{k}", ops, {"nclients": nc}))
         out += foreign_chain_cases("c09", rng, sizes(tier, 10, 100), [])
+        # several clients reach the low-urgency band at the same time: what each is told depends on its own
+        # snapshot alone
+        for k in range(sizes(tier, 6, 30)):
+            v = rng.choice([4, 6])
+            ops = [f"cfg 14 {v}"]
+            for c in (1, 2, 3):
+                ops += [f"ensure {c}", f"av {c} nil b:{c}", f"av {c} latest:{c} b:{c},1", f"as {c} latest:{c} b:9,{c}"]
+            order = [c for c in (1, 2, 3) for _ in range(v + 2)]
+            rng.shuffle(order)
+            ops += [f"av {c} latest:{c} b:{j % 250},{c}" for j, c in enumerate(order)]
+            out.append(Case(f"c09-low-{k}", ops, {"nclients": 3}))
+        # a request of one client fails between its write and its commit; the next requests are another
+        # client's; after a restart the first client is where it would be had the others never existed
+        for k in range(sizes(tier, 6, 30)):
+            ops = []
+            for c in (1, 2):
+                ops += [f"ensure {c}", f"av {c} nil b:{c}", f"av {c} latest:{c} b:{c},1"]
+            for j in range(rng.randint(1, 3)):
+                a, b = rng.choice([(1, 2), (2, 1)])
+                ops += [f"fault {rng.choice(['3:before', '2:after'])}", f"av {a} latest:{a} b:66,{j}", f"av {b} latest:{b} b:5,{j}",
+                        f"fault 3:before", f"as {a} latest:{a} b:67,{j}", f"as {b} latest:{b} b:6,{j}", "reopen",
+                        f"gcv {a} latest:{a}", f"gcv {a} anc:{a}:1", f"gs {a}", f"av {a} latest:{a} b:7,{j}", f"gs {b}"]
+            out.append(Case(f"c09-fault-{k}", ops, {"nclients": 2, "only": "sqlite", "faults": True}))
         # uploads of different clients interleaved chunk by chunk on one worker: nobody's bytes end up
         # under another client id
         from .props_http import interleaved_upload_cases
@@ -984,10 +1043,21 @@ class C09(L1Prop):
                 if n in mine: return f"ver:1:{mine.index(n)}"
                 if n == c: return "client:1"
                 return f"${n}"
+            pending_fault = None
             for (o, ri, rm) in trace:
-                op = Op(o)
-                if op.c != c or op.kind == "dump":
+                if o.startswith("fault "):
+                    pending_fault = o; continue
+                if o.startswith("mark fired"):
                     continue
+                op = Op(o)
+                if o.split()[0] == "reopen":
+                    ops.append("reopen"); continue
+                if op.c != c or op.kind == "dump":
+                    if op.kind in ("av", "gcv", "as", "gs", "ensure"):
+                        pending_fault = None
+                    continue
+                if pending_fault:
+                    ops.append(pending_fault); pending_fault = None
                 t = o.split()
                 pl = lambda d: "e" if d == "-" else "b:" + d
                 if op.kind == "av":
@@ -1121,6 +1191,25 @@ class C10(L1Prop):
                     else:
                         ops.append(line)
             out.append(Case(f"c10-h-{j}", ops))
+        # through the HTTP entry point: every requested version, the nil id included, is answered 200
+        for n in range(0, 4):
+            for spos in (None, n):
+                if spos == 0:
+                    continue
+                ops = ["http POST av hyph=nil hyph=2 history b:7"] + [f"http POST av hyph={'nil' if i == 0 else 'latest:1'} hyph=1 history b:{i}" for i in range(n)]
+                if spos:
+                    ops.append(f"http POST as hyph=latest:1 hyph=1 snapshot b:100,{n}")
+                for tgt in ["nil", "fresh", "latest:2"] + [f"anc:1:{j}" for j in range(n)]:
+                    ops += ["dump 1", f"http POST as hyph={tgt} hyph=1 snapshot b:200,{n}", "dump 1"]
+                out.append(Case(f"c10-http-{n}-{spos}", ops, {"http": True}, mode="http"))
+        # the stored snapshot carries a time AHEAD of the server's clock (stored while the clock ran fast, or
+        # on another host): acceptance depends on chain positions only
+        for n in (3, 6):
+            for ahead in (3600, 3 * 86400):
+                ops = ["ensure 1"] + [f"av 1 {'nil' if i == 0 else 'latest:1'} b:{i}" for i in range(n)]
+                ops += ["as 1 anc:1:2 b:100", f"backdate 1 {-ahead}", "dump 1", "as 1 anc:1:1 b:101", "dump 1", "gs 1",
+                        "av 1 latest:1 b:9", f"backdate 1 {-ahead}", "dump 1", "as 1 latest:1 b:102", "dump 1", "gs 1", "reopen", "gs 1"]
+                out.append(Case(f"c10-ahead-{n}-{ahead}", ops))
         # the window is the five most recent versions WHATEVER the configured snapshot targets are
         for j, (d, v) in enumerate([(14, 0), (14, 1), (14, 2), (14, 3), (14, 4), (14, 5), (14, 2 ** 31), (14, 3000000000), (14, U32MAX), (0, 100), (1, 100), (I64MAX, 100)]):
             for n in (6, 3):
@@ -1152,6 +1241,8 @@ class C10(L1Prop):
         fails = []
         # the lines that announce / report an injected fault are not observations of the server
         trace = [t for t in trace if not t[0].startswith(("fault ", "mark fired"))]
+        if case.meta.get("http"):
+            trace = http_as_lib(trace)
         for i, (o, ri, rm) in enumerate(trace):
             op = Op(o)
             if op.kind != "as" or i == 0 or i + 1 >= len(trace):
